@@ -214,3 +214,69 @@ pub fn uri_case() -> BoxedStrategy<UriCase> {
 pub fn simple_uri_case() -> BoxedStrategy<UriCase> {
     (scheme(), host(), port(), path()).prop_map(|(scheme, host, port, path)| UriCase { scheme, userinfo: None, host, port, path, query: None, markers: vec![] }).boxed()
 }
+
+
+// ---------------------------------------------------------------------------------------------
+// Target histories: a few base targets and close relatives of them (same text but for the letter
+// case of the host, of the path or of percent-escapes; the partner scheme; a user name equal to the
+// host; port or query toggled), used one after another - as an application that talks to several
+// printers does. Anything the library remembers between independent uses shows here.
+// ---------------------------------------------------------------------------------------------
+
+fn flip_case(s: &str, upper: bool) -> String {
+    if upper {
+        s.to_ascii_uppercase()
+    } else {
+        s.to_ascii_lowercase()
+    }
+}
+
+pub fn variant(u: &UriCase, sel: u8) -> UriCase {
+    let mut v = u.clone();
+    match sel % 10 {
+        0 | 1 => {}
+        2 => v.host = flip_case(&u.host, true),
+        3 => v.host = flip_case(&u.host, false),
+        4 => v.path = if u.path == flip_case(&u.path, true) { flip_case(&u.path, false) } else { flip_case(&u.path, true) },
+        5 => {
+            v.scheme = match u.scheme.as_str() {
+                "ipp" => "ipps",
+                "ipps" => "ipp",
+                "http" => "https",
+                _ => "http",
+            }
+            .to_string()
+        }
+        6 => {
+            // a user name equal to the host name (cups:secret@cups)
+            if !u.host.starts_with('[') {
+                v.userinfo = Some(format!("{}:pW7kh0st", u.host));
+                v.markers = u.query.iter().flat_map(|_| u.markers.iter().filter(|m| m.starts_with("qV3x")).cloned()).collect();
+                v.markers.push("pW7kh0st".to_string());
+            }
+        }
+        7 => v.port = if u.port.is_some() { None } else { Some("631".to_string()) },
+        8 => {
+            v.query = if u.query.is_some() { None } else { Some("k=qV3xt0ggle".to_string()) };
+            v.markers.retain(|m| !m.starts_with("qV3x"));
+            if v.query.is_some() {
+                v.markers.push("qV3xt0ggle".to_string());
+            }
+        }
+        _ => {
+            // the user-info in the other letter case (http::Uri compares authorities case-insensitively)
+            if let Some(ui) = &u.userinfo {
+                v.userinfo = Some(ui.to_ascii_uppercase());
+                v.markers = u.markers.iter().map(|m| if m.starts_with("qV3x") { m.clone() } else { m.to_ascii_uppercase() }).collect();
+            }
+        }
+    }
+    v
+}
+
+/// 4-12 targets: each one a base (2-4 of them) or a relative of a base, in generated order
+pub fn uri_history() -> BoxedStrategy<Vec<UriCase>> {
+    (proptest::collection::vec(uri_case(), 2..5), proptest::collection::vec((any::<u16>(), any::<u8>()), 4..13))
+        .prop_map(|(bases, picks)| picks.into_iter().map(|(b, sel)| variant(&bases[(b as usize * bases.len()) >> 16], sel)).collect())
+        .boxed()
+}
